@@ -63,7 +63,7 @@ pub fn preset(property: &str, tier: &str, run_seed: u64) -> SwarmCfg {
     cfg.knobs.push(("custom-path".into(), r.below(2)));
     match property {
         "C01" => {
-            cfg.oracles = sv(&["agreement", "path-required"]);
+            cfg.oracles = sv(&["agreement", "path-required", "private-keys"]);
             cfg.faults = sv(&["N-DROP", "N-DUP", "N-REORD", "N-RACE", "N-STALE"]);
             cfg.weights.push(("crash".into(), if r.chance(1, 2) { 1 } else { 0 }));
             cfg.weights.push(("reload".into(), 8));
